@@ -28,6 +28,8 @@ pub struct ClosureSpec {
     pub ret: Option<String>,
     pub reqs: Vec<String>,
     pub enss: Vec<(Vec<String>, String)>,
+    /// E17: `opt.unwrap_or_else(|| e)` with this closure is emitted as `match opt { Some(v) => v, None => e }`
+    pub inline: bool,
 }
 
 #[derive(Debug, Default, Clone)]
@@ -40,6 +42,8 @@ pub struct FnSpec {
     pub enss: Vec<Clause>,
     pub loops: BTreeMap<usize, LoopSpec>,
     pub closures: BTreeMap<usize, ClosureSpec>,
+    /// E16: locals / parameters of type u64 whose `.to_le_bytes()` becomes `u64_to_le_bytes(..)`
+    pub u64_names: Vec<String>,
     /// (where, tags, text)
     pub hints: Vec<(String, Vec<String>, String)>,
     /// (reason, from, to)
@@ -264,9 +268,11 @@ pub fn parse_file(path: &str) -> Vec<Item> {
                             "ret" => cl.ret = Some(r2.trim().to_string()),
                             "req" => cl.reqs.push(r2.trim().to_string()),
                             "ens" => { let (tags, text) = split_tags(r2); cl.enss.push((tags, text)); }
+                            "inline" => cl.inline = true,
                             _ => die(&format!("{}:{}: unknown closure directive {}", path, ln, sub)),
                         }
                     }
+                    "u64" => { fs.u64_names.push(rest.trim().to_string()); }
                     "hint" => {
                         let (tags, r) = split_tags(&rest);
                         let (wh, text) = r.split_once("::").unwrap_or_else(|| die(&format!("{}:{}: hint needs `where :: text`", path, ln)));
